@@ -890,6 +890,13 @@ func (c *flowCtx) recordReturn(r *ssa.Return, s *fstate) {
 			} else {
 				rs.Bool0 = 0
 			}
+		} else if ex, ok := r.Results[0].(*ssa.Extract); ok && ex.Index == 0 {
+			// `return c.helper(d)`: the helper's own first result, when it is the same constant on all its returns
+			if call, ok := ex.Tuple.(*ssa.Call); ok {
+				if g := call.Common().StaticCallee(); g != nil {
+					rs.Bool0 = constBool0(g, 0)
+				}
+			}
 		}
 	}
 	c.res.Returns = append(c.res.Returns, rs)
@@ -1046,4 +1053,46 @@ func (c *flowCtx) summarise() {
 		sz += 1000003
 	}
 	r.size = sz
+}
+
+// constBool0: 1/0 when every return of g delivers the constant true/false as its first result
+// (through tail calls, to a small depth), else -1.
+func constBool0(g *ssa.Function, depth int) int {
+	if depth > 3 || len(g.Blocks) == 0 {
+		return -1
+	}
+	val := -2
+	for _, b := range g.Blocks {
+		rt, ok := b.Instrs[len(b.Instrs)-1].(*ssa.Return)
+		if !ok {
+			continue
+		}
+		if len(rt.Results) == 0 {
+			return -1
+		}
+		v := -1
+		switch x := rt.Results[0].(type) {
+		case *ssa.Const:
+			if x.Value != nil && x.Value.Kind() == constant.Bool {
+				v = 0
+				if constant.BoolVal(x.Value) {
+					v = 1
+				}
+			}
+		case *ssa.Extract:
+			if call, ok := x.Tuple.(*ssa.Call); ok && x.Index == 0 {
+				if h := call.Common().StaticCallee(); h != nil {
+					v = constBool0(h, depth+1)
+				}
+			}
+		}
+		if v < 0 || (val != -2 && val != v) {
+			return -1
+		}
+		val = v
+	}
+	if val == -2 {
+		return -1
+	}
+	return val
 }
